@@ -64,6 +64,8 @@ func main() {
 		Child:         child,
 		ClassifyDeath: classifyDeath,
 		Post: func(c *ev.Check, outs []*run.Outcome) {
+			c.Require("concpoll.responses_judged", 100)
+			c.Require("query.future.beyond32bits_aligned_in_64_bits", 1)
 			c.Require("max.archive_file_bytes", 4<<20+1)             // a history file larger than 4 MiB was restarted on
 			c.Require("max.devices_in_rotation", 130)                // a single record larger than 4 MiB
 			c.Require("max.archived_weeks", 17)                      // a long archive
@@ -127,6 +129,9 @@ func plan(tier string, seed int64) []run.Batch {
 		for i := 0; i < 4; i++ {
 			bs = append(bs, run.Batch{Kind: "deep", Seed: seed*100000 + 9700 + int64(i), N: 1, TimeoutS: 600, Params: map[string]string{"devices": fmt.Sprint(10 + 2*i), "rounds": fmt.Sprint(6 + i)}})
 		}
+		for i := 0; i < 6; i++ {
+			bs = append(bs, run.Batch{Kind: "concpoll", Seed: seed*100000 + 9900 + int64(i), N: 1, TimeoutS: 400})
+		}
 		for i := 0; i < 4; i++ {
 			bs = append(bs, run.Batch{Kind: "tornlog", Seed: seed*100000 + 9800 + int64(i), N: 1, TimeoutS: 400})
 		}
@@ -141,6 +146,7 @@ func plan(tier string, seed int64) []run.Batch {
 	bs = append(bs, run.Batch{Kind: "bigrot", Seed: seed*100000 + 9000, N: 1, TimeoutS: 400, Params: map[string]string{"devices": "136"}})
 	bs = append(bs, run.Batch{Kind: "deep", Seed: seed*100000 + 9700, N: 1, TimeoutS: 400, Params: map[string]string{"devices": "12", "rounds": "6"}})
 	bs = append(bs, run.Batch{Kind: "tornlog", Seed: seed*100000 + 9800, N: 1, TimeoutS: 400})
+	bs = append(bs, run.Batch{Kind: "concpoll", Seed: seed*100000 + 9900, N: 1, TimeoutS: 400})
 	bs = append(bs, run.Batch{Kind: "diskfault", Seed: seed*100000 + 9500, N: 1, TimeoutS: 600, Params: map[string]string{"mode": "dir"}})
 	bs = append(bs, run.Batch{Kind: "diskfault", Seed: seed*100000 + 9501, N: 1, TimeoutS: 600, Params: map[string]string{"mode": "partial"}})
 	return bs
@@ -1043,6 +1049,17 @@ func (h *hist) queryRefused(class string) {
 			a := []int64{1, 2, 3, 1 << 30}[h.rng.Intn(4)]
 			n = a<<32 + b
 			h.r.Count("query.future.beyond32bits", 1)
+			switch h.rng.Intn(3) {
+			case 0:
+				// 63*2^32 = 2016*2^27: aligned as a 64-bit number AND its low 32 bits are exactly the servable week b
+				n = (63<<32)*int64(1+h.rng.Intn(1000)) + b
+				h.r.Count("query.future.beyond32bits_aligned_in_64_bits", 1)
+			case 1:
+				// the first multiples of 2016 above a*2^32: aligned as 64-bit numbers, the low 32 bits
+				// (1760, 3776, ...) are misaligned and lie inside or below the window
+				n = ((a<<32)/wmodel.Week+1+int64(h.rng.Intn(3)))*wmodel.Week
+				h.r.Count("query.future.beyond32bits_aligned_in_64_bits", 1)
+			}
 		}
 	default:
 		c := []int64{1, 2015, 2017, int64(h.off) + 1, int64(h.off) - 1, int64(h.off) + 2015, int64(h.off) + 2017, int64(h.off) + 4031, int64(h.off) + 4033, 4294967295}
@@ -1314,6 +1331,8 @@ func child(b run.Batch, r *ev.Result) {
 		childFaultB(b, r)
 	case "deep":
 		childDeep(b, r)
+	case "concpoll":
+		childConcPoll(b, r)
 	case "tornlog":
 		childTornLog(b, r)
 	case "bigrot":
